@@ -205,7 +205,8 @@ impl Default for Config {
 #[derive(Clone, Debug, PartialEq)]
 pub enum Ev {
     Spawn { child: TaskId },
-    ChanNew { chan: ChanId, cap: Option<usize> },
+    /// `elem`: size in bytes of one message
+    ChanNew { chan: ChanId, cap: Option<usize>, elem: usize },
     Send { chan: ChanId, seq: u64 },
     SendFail { chan: ChanId },
     Recv { chan: ChanId, from: TaskId, seq: u64 },
@@ -496,7 +497,7 @@ impl Sched {
                 fnv(&mut h, 1);
                 fnv(&mut h, *child as u64)
             }
-            Ev::ChanNew { chan, cap } => {
+            Ev::ChanNew { chan, cap, .. } => {
                 fnv(&mut h, 2);
                 fnv(&mut h, *chan as u64);
                 fnv(&mut h, cap.map_or(u64::MAX, |c| c as u64))
@@ -1205,7 +1206,7 @@ pub(crate) fn sim_join<T>(j: SimJoin<T>) -> std::thread::Result<T> {
 // Channels (metadata here, typed payload in shim.rs)
 // ---------------------------------------------------------------------------
 
-pub(crate) fn chan_new(sh: &Arc<Shared>, me: TaskId, cap: Option<usize>) -> ChanId {
+pub(crate) fn chan_new(sh: &Arc<Shared>, me: TaskId, cap: Option<usize>, elem: usize) -> ChanId {
     let mut g = sh.lock();
     let id = g.chans.len();
     g.chans.push(Chan {
@@ -1215,7 +1216,7 @@ pub(crate) fn chan_new(sh: &Arc<Shared>, me: TaskId, cap: Option<usize>) -> Chan
         receiver_alive: true,
         sent: Vec::new(),
     });
-    g.log(me, Ev::ChanNew { chan: id, cap });
+    g.log(me, Ev::ChanNew { chan: id, cap, elem });
     id
 }
 
